@@ -1207,6 +1207,10 @@ func c05ModelOp(op *c05Op) bool {
 	switch op.name {
 	case "mkdir", "mkdirall", "remove", "rmdir", "removeall":
 		return c05PlainPath.MatchString(op.p1)
+	case "rename", "posixrename", "link":
+		return c05PlainPath.MatchString(op.p1) && c05PlainPath.MatchString(op.p2)
+	case "symlink":
+		return c05PlainPath.MatchString(op.p2)
 	}
 	return false
 }
@@ -1236,7 +1240,29 @@ func c05TreeStr(snap map[string]c05Ent) string {
 
 func (w *c05World) emitFs(kind string, seq, step int, op *c05Op, before, after map[string]c05Ent, cat string) {
 	c := w.c
-	n := c.Case(kind, kvs("cfg", w.cfg), kvi("seq", seq), kvi("step", step), kvs("op", op.name), kvs("path", op.p1), kvs("tree", c05TreeStr(before)))
+	p1, p2 := op.p1, op.p2
+	if op.name == "symlink" {
+		p1, p2 = op.p2, "-" // the link's own path; the target text is not in the model
+	}
+	if p2 == "" {
+		p2 = "-"
+	}
+	if op.name == "rename" || op.name == "posixrename" {
+		// two names of one file (hard links): rename(2) does nothing and reports success; the model has no file identity
+		if a, ok := before["r/"+op.p1]; ok && a.typ == "file" && a.nlink >= 2 {
+			if b, ok := before["r/"+op.p2]; ok && b.typ == "file" && b.nlink >= 2 && op.p1 != op.p2 {
+				c.Stat(kind + "_rename_between_possible_hard_links_not_compared")
+				return
+			}
+		}
+	}
+	tgt := "text"
+	if op.name == "symlink" && op.target == "" && !(kind == "fsop" && w.cfg == "wd") {
+		// (a server with a working directory resolves the target text against it - known finding F14 - so that os.Symlink gets
+		// a non-empty text there)
+		tgt = "empty"
+	}
+	n := c.Case(kind, kvs("cfg", w.cfg), kvi("seq", seq), kvi("step", step), kvs("op", op.name), kvs("path", p1), kvs("path2", p2), kvs("target", tgt), kvs("tree", c05TreeStr(before)))
 	if cat == "perm" {
 		// permissions are not in the model; such a step is recorded but not compared (its expectation would be wrong by design)
 		c.Stat(kind + "_permission_outcomes_not_compared")
@@ -1245,7 +1271,7 @@ func (w *c05World) emitFs(kind string, seq, step int, op *c05Op, before, after m
 	}
 	c.Obs(n, "res="+cat, "tree="+c05TreeStr(after))
 	c.Oracle(n, true, "")
-	if strings.Contains(op.p1, "/") {
+	if strings.Contains(p1, "/") {
 		c.NT(n)
 	}
 	c.Stat(kind + "_" + op.name)
